@@ -82,6 +82,12 @@ Definition live_sid : N := 0.
 (* what one stream contributes: delivered entry (kind, end status, payload), raw-side entry, close code *)
 Record scontrib := mkcontrib { c_deliv : option (N * list N * bytes); c_raw : list N; c_close : option N }.
 
+(* the harness application leaves a stream whose payload starts with "NOREAD" unread after those
+   six bytes and reports it as (still open, "NOREAD") *)
+Definition noread : bytes := [78; 79; 82; 69; 65; 68].
+Definition app_view (endst : list N) (is_reset : bool) (rest : bytes) : list N * bytes :=
+  if list_eqb (firstn 6 rest) noread then ([2], noread)
+  else (endst, if is_reset then [WILD] else rest).
 Definition stream_contrib (c : crit) (s : sspec) : scontrib * crit :=
   let w := if (s_end s =? 2) && negb (s_pause s =? 0) then firstn (s_cut s) (s_bytes s) else s_bytes s in
   let t := match s_end s with 0 => Fin | 1 => Reset | _ => Lost end in
@@ -89,7 +95,7 @@ Definition stream_contrib (c : crit) (s : sspec) : scontrib * crit :=
   if s_kind s =? 0 then
     match uni_accept c w t with
     | (RHandWT sid rest, c') =>
-        if sid =? live_sid then (mkcontrib (Some (0, endst, if s_end s =? 1 then [WILD] else rest)) [WILD] None, c')
+        if sid =? live_sid then (let (e, d) := app_view endst (s_end s =? 1) rest in mkcontrib (Some (0, e, d)) [WILD] None, c')
         else (mkcontrib None [1; to_code EBufferedStreamRejected] None, c')
     | (RIgnoreStream e, c') => (mkcontrib None [1; to_code e] None, c')
     | (RContinue, c') =>
@@ -107,7 +113,7 @@ Definition stream_contrib (c : crit) (s : sspec) : scontrib * crit :=
   else
     match bi_accept w t with
     | RHandWT sid rest =>
-        if sid =? live_sid then (mkcontrib (Some (1, endst, if s_end s =? 1 then [WILD] else rest)) [WILD] None, c)
+        if sid =? live_sid then (let (e, d) := app_view endst (s_end s =? 1) rest in mkcontrib (Some (1, e, d)) [WILD] None, c)
         else (mkcontrib None [1; to_code EBufferedStreamRejected; 0] None, c)
     | RClose e => (mkcontrib None [WILD] (Some (to_code e)), c)
     | RRefuse e => (mkcontrib None [1; to_code e; 0] None, c)
@@ -180,11 +186,18 @@ Definition control_ok (bs : bytes) : bool :=
 Definition chk_631 (a o : list (list N)) : bool :=
   let sid := 4 * argn 0 0 a in
   match o with
-  | [h; ok; control; uni; bi; dg] =>
+  | [h; ok; control; uni; bi; dg; runi; rbi] =>
       list_eqb h [1; sid] && list_eqb ok [1; 1; 1] && control_ok control &&
       list_eqb uni (emit_uni_preamble sid ++ arg 1 a) &&
       list_eqb bi (emit_bi_preamble sid ++ arg 2 a) &&
-      list_eqb dg (emit_datagram sid (arg 3 a))
+      list_eqb dg (emit_datagram sid (arg 3 a)) &&
+      (* the other direction: what the accept path hands the application for the same session *)
+      (match uni_accept (mkcrit true false false) (emit_uni_preamble sid ++ arg 2 a) Fin with
+       | (RHandWT s2 rest, _) => (s2 =? sid) && list_eqb runi (1 :: 0 :: rest)
+       | _ => false end) &&
+      (match bi_accept (emit_bi_preamble sid ++ arg 1 a) Fin with
+       | RHandWT s2 rest => (s2 =? sid) && list_eqb rbi (1 :: 0 :: rest)
+       | _ => false end)
   | _ => false
   end.
 
@@ -200,6 +213,8 @@ Definition model_641 (a : list (list N)) : list (list N) :=
   | 3 => [[1]; [1; varint_w2q code]]
   | 4 => [[1; 1]; [1; varint_w2q code]]
   | 5 => [[1; 1; nb]; match finish_result QSNone with None => [0] | Some e => enc_sw e end; [0]]
+  (* finish() retried while nothing is acknowledged: pending twice (the cell is not set), then Ok *)
+  | 6 => [[1; 1]; PENDING; PENDING; match finish_result QSNone with None => [0] | Some e => enc_sw e end; [0]]
   | _ => [[PANIC]]
   end.
 
